@@ -229,7 +229,8 @@ func (m *Manager) GetGroupTracker(group string) *GroupTracker {
 // ensureGroupTrackerForApp creates a group tracker to user and application link.
 // The userTracker MUST have been created and the application SHOULD not be tracked yet for the user.
 func (m *Manager) ensureGroupTrackerForApp(queuePath, applicationID string, user security.UserGroup) {
-	userTracker := m.GetUserTracker(user.User)
+	// the tracker of the user can be dropped (last usage released) between the caller's lookup and this one: get or create
+	userTracker := m.getUserTracker(user.User)
 	// sanity check: caller should not have called this function if the application is already tracked
 	if userTracker.hasGroupForApp(applicationID) {
 		return
